@@ -27,6 +27,7 @@
  * in exact-size heap blocks.
  */
 #include "vh.h"
+#include <fenv.h>
 
 #include "humansize.h"
 #include "parsenum.h"
@@ -296,7 +297,21 @@ main(void)
 			vh_free(raw);
 		} else if (strcmp(op, "HF") == 0) {
 			uint64_t v = strtoull(vh_tok(&L, 1), NULL, 10);
-			char * s = humansize(v);
+			const char * rm = (L.ntok > 2) ? vh_tok(&L, 2) : NULL;
+			static const int rmodes[] = { FE_TONEAREST, FE_UPWARD,
+			    FE_DOWNWARD, FE_TOWARDZERO };
+			char * s;
+
+			/*
+			 * Optional rounding mode 0..3: the caller's floating-point
+			 * environment is the caller's; the documented form is
+			 * defined on integers and must not depend on it.
+			 */
+			if (rm != NULL)
+				fesetround(rmodes[atoi(rm) & 3]);
+			s = humansize(v);
+			if (rm != NULL)
+				fesetround(FE_TONEAREST);
 
 			if (s == NULL)
 				printf("R NULL\n");
